@@ -70,11 +70,12 @@ def make_optimizer(cname, task):
 class Funnel:
     """one execution of the real _init_agent on a symbolic candidate with an uninterpreted objective"""
     def __init__(self, names, cname="base", minmax=MIN, n_obj=1, kind="real", weights="sym", symbolic_bounds=False,
-                 extra_coords=0, mutate=False):
+                 extra_coords=0, mutate=False, f_kind="real"):
         self.vars = build_vars(names, symbolic_bounds)
         self.decls = leaf_decls(self.vars)
         self.minmax, self.n_obj = minmax, n_obj
-        self.F = [sym.real(f"F{j}") for j in range(n_obj)]
+        # objective values: finite, or (f_kind="ext") also +inf / -inf - "death penalty" objectives are legal
+        self.F = [(sym.ext_real if f_kind == "ext" else sym.real)(f"F{j}") for j in range(n_obj)]
         if n_obj == 1 and weights != "list1":
             self.w = None
         else:
